@@ -114,6 +114,19 @@ Theorem cursor_string_as_argument c :
   tb_encode c <> [] /\ (wire_ok c -> arg_of_wire (Some (tb_encode c)) = Some (CCursor c)).
 Proof. split; [apply tb_encode_nonempty | apply arg_of_wire_encode]. Qed.
 
+(** a decision procedure for [wire_ok] (used by the examples) *)
+Definition wire_okb (c : tcursor) : bool :=
+  (- 9223372036854775808 <=? fst c)%Z && (fst c <? 9223372036854775808)%Z
+  && (Z.of_nat (length (snd c)) <? 4294967296)%Z && forallb (fun x => (x <? 256)%N) (snd c).
+Lemma wire_okb_ok c : wire_okb c = true -> wire_ok c.
+Proof.
+  unfold wire_okb, wire_ok. intro H.
+  apply andb_true_iff in H as [H H4]. apply andb_true_iff in H as [H H3]. apply andb_true_iff in H as [H1 H2].
+  change (2 ^ 63)%Z with 9223372036854775808%Z. change (2 ^ 32)%Z with 4294967296%Z.
+  split; [lia|]. split; [lia|].
+  apply Forall_forall. intros x Hx. rewrite forallb_forall in H4. specialize (H4 x Hx). lia.
+Qed.
+
 (** ** Walking by the cursor strings is walking by the cursors *)
 
 Lemma last_error_In {A} (l : list A) x : last_error l = Some x -> In x l.
